@@ -4,7 +4,7 @@
 (* combination rules; and a grid of positive C6/C12 values for the conversion.                                      *)
 EXTENDS TypeResolveNB, Json
 
-NBNames == <<"P", "Q", "R">>
+NBNames == <<"Q", "P", "R">>   \* not in alphabetical order
 \* <<v1, v2>> of the atom types and of the explicit pairs (decimal rationals n * 10^-e)
 TypeVals == << <<Q(27, 1, 4), Q(99, 1, 8)>>, <<Q(2, 1, 0), Q(3, 1, 0)>>, <<Q(7, 1, 3), Q(1, 1, 6)>> >>
 PairIdx(nt) == SetToSortSeq({<<x, y>> \in (1..nt) \X (1..nt) : x <= y}, LAMBDA u, v : u[1] < v[1] \/ (u[1] = v[1] /\ u[2] < v[2]))
